@@ -370,6 +370,7 @@ pub fn c12(big: bool) -> PropDef<WalCase> {
         run: Arc::new(|c: &WalCase, d: &Path| run_wal_case(c, d)),
         render: Arc::new(|c: &WalCase| json!({"lz4": c.lz4, "sessions": c.sessions.iter().map(|s| s.iter().map(|r| format!("{:?}", r.0)).collect::<Vec<_>>()).collect::<Vec<_>>(), "after": c.after.iter().map(|r| format!("{:?}", r.0)).collect::<Vec<_>>()})),
         minimize: Some(Arc::new(minimize_wal)),
+        shrink_iters: 40,
     }
 }
 
@@ -589,5 +590,6 @@ pub fn c12_store() -> PropDef<WalStoreCase> {
         run: Arc::new(|c: &WalStoreCase, d: &Path| run_wal_store_case(c, d)),
         render: Arc::new(|c: &WalStoreCase| json!(c)),
         minimize: None,
+        shrink_iters: 40,
     }
 }
